@@ -7,6 +7,8 @@ import FsVerif.Model.Basic
 import FsVerif.Model.PosStore
 import FsVerif.Model.BufStore
 import FsVerif.Model.PrioReq
+import FsVerif.Model.Node.Source
+import FsVerif.Model.Node.Machine
 open FsVerif
 
 def parseInt (s : String) : Option Int := s.toInt?
@@ -31,6 +33,9 @@ inductive M where
   | pos (s : PosStore)
   | buf (s : BufStore)
   | prq (s : PrioReq)
+  | src (s : SrcState)
+  | snk (s : SinkState)
+  | mac (s : MacState)
 
 def showRes : PosStore.Res → String
   | .ok => "ok" | .tok i => s!"tok {i}" | .item x => s!"item {x.id}"
@@ -81,6 +86,37 @@ def prqOp (w : List String) : Option PrioReq.Op :=
 def showPFired (l : List (Nat × Option Item)) : String :=
   " ".intercalate (l.map fun p => match p.2 with | some x => s!"{p.1}:{x.id}" | none => s!"{p.1}")
 
+def parsePol (s : String) : Option Pol :=
+  match s.splitOn ":" with
+  | ["fa"] => some .fa | ["rr"] => some .rr | ["rnd"] => some .rnd | ["user"] => some .user
+  | ["const", k] => k.toInt?.map .const
+  | _ => none
+
+def parseNatList (s : String) : List Nat := (s.splitOn ",").filterMap String.toNat?
+def parseIntList (s : String) : List Int := (s.splitOn ",").filterMap String.toInt?
+
+def parseItems (s : String) : List GotItem :=
+  (s.splitOn ",").filterMap fun x =>
+    match x.splitOn "@" with
+    | [i, c] => match i.toNat?, c.toNat? with
+      | some i, some c => some { id := i, created := c }
+      | _, _ => none
+    | [i] => i.toNat?.map fun i => { id := i }
+    | _ => none
+
+/-- `trig=… draws=… sels=… cans=… items=…` (any subset, any order) -/
+def parseAns (ws : List String) : Ans :=
+  ws.foldl (fun a w =>
+    match w.splitOn "=" with
+    | ["trig", v] => { a with trig := parseNatList v }
+    | ["draws", v] => { a with draws := parseNatList v }
+    | ["sels", v] => { a with sels := parseIntList v }
+    | ["cans", v] => { a with cans := (parseNatList v).map (· != 0) }
+    | ["items", v] => { a with items := parseItems v }
+    | _ => a) {}
+
+def showCalls (cs : List Call) : String := "; ".intercalate (cs.map Call.show)
+
 def stepLine (m : M) (line : String) : M × String :=
   let w := (line.trimAscii.toString.splitOn " ").filter (· ≠ "")
   match w with
@@ -91,6 +127,19 @@ def stepLine (m : M) (line : String) : M × String :=
     | some c, some p, some f, some d =>
       (.pos (PosStore.init { cap := c, prio := p != 0, filter := f != 0, trigDelay := d }), "new")
     | _, _, _, _ => (m, "bad-op")
+  | ["new", "source", idx, blk, pol, nout] =>
+    match parseNat idx, parseNat blk, parsePol pol, parseNat nout with
+    | some i, some b, some p, some n => (.src (SrcState.init { nodeIdx := i, blocking := b != 0, pol := p, nout := n }), "new")
+    | _, _, _, _ => (m, "bad-op")
+  | ["new", "sink", nin] =>
+    match parseNat nin with
+    | some n => (.snk (SinkState.init n), "new")
+    | none => (m, "bad-op")
+  | ["new", "machine", idx, wc, setup, blk, ip, op, nin, nout] =>
+    match parseNat idx, parseNat wc, parseNat setup, parseNat blk, parsePol ip, parsePol op, parseNat nin, parseNat nout with
+    | some i, some w, some su, some b, some ip, some op, some ni, some no =>
+      (.mac (MacState.init { nodeIdx := i, wc := w, setup := su, blocking := b != 0, inPol := ip, outPol := op, nin := ni, nout := no }), "new")
+    | _, _, _, _, _, _, _, _ => (m, "bad-op")
   | ["new", "prq", cap] =>
     match parseNat cap with
     | some c => (.prq (PrioReq.init c), "new")
@@ -104,6 +153,33 @@ def stepLine (m : M) (line : String) : M × String :=
   | _ =>
     match m with
     | .none => (m, "bad-op")
+    | .src s =>
+      match w with
+      | "act" :: p :: t :: rest =>
+        match parseNat p, parseNat t with
+        | some p, some t =>
+          let (s', cs) := s.step p t (parseAns rest)
+          (.src s', s!"{showCalls cs} || {s'.stats}")
+        | _, _ => (m, "bad-op")
+      | _ => (m, "bad-op")
+    | .snk s =>
+      match w with
+      | "act" :: p :: t :: rest =>
+        match parseNat p, parseNat t with
+        | some p, some t =>
+          let (s', cs) := s.step p t (parseAns rest)
+          (.snk s', s!"{showCalls cs} || {s'.stats}")
+        | _, _ => (m, "bad-op")
+      | _ => (m, "bad-op")
+    | .mac s =>
+      match w with
+      | "act" :: p :: t :: rest =>
+        match parseNat p, parseNat t with
+        | some p, some t =>
+          let (s', cs) := s.step p t (parseAns rest)
+          (.mac s', s!"{showCalls cs} || {s'.stats}")
+        | _, _ => (m, "bad-op")
+      | _ => (m, "bad-op")
     | .prq s =>
       match prqOp w with
       | some op =>
